@@ -24,7 +24,11 @@ where
     let mut sorted_events: Vec<Rc<SweepEvent<F>>> = Vec::new();
     let rightbound = sbbox.max.x.min(cbbox.max.x);
 
+    #[cfg(feature = "verif-hooks")]
+    crate::verif_hooks::on_subdivide_start();
     while let Some(event) = event_queue.pop() {
+        #[cfg(feature = "verif-hooks")]
+        crate::verif_hooks::on_sweep_event();
         #[cfg(feature = "debug-booleanop")]
         {
             println!("\n{{\"processEvent\": {}}}", event.to_json_debug());
@@ -34,6 +38,8 @@ where
         if operation == Operation::Intersection && event.point.x > rightbound
             || operation == Operation::Difference && event.point.x > sbbox.max.x
         {
+            #[cfg(feature = "verif-hooks")]
+            crate::verif_hooks::note_early_break();
             break;
         }
 
